@@ -26,6 +26,28 @@ over a smaller alphabet.
 Two live instances: a second instance of the same program class with fewer
 or more subprograms (hence another value size) is created and loaded before
 the first one is used.
+
+Writes that struct refuses: after every vector of Python-side writes (and
+again after the program stored its values) Python attempts, for every
+variable, values that cannot be values of its format - out of range, of a
+wrong type, of a wrong arity, for multi-element formats tuples that are wrong
+in one (the last, a middle, the first) element only, for 'x' decimals whose
+scaled value does not fit 64 bits.  The exception is the accepted answer; a
+refused write writes nothing, so Python and the program must go on reading
+the value written last by a write that succeeded.
+
+Single elements at run-time indices: programs that go through the library's
+own idiom (EtherXDP.program does it with its 64I counters)
+`with var.get_address(None, False, False) as (dst, _), e.r3 < n:
+e.r[dst] += size * e.r3; ... e.mI[e.r[dst]] ...` for every multi-element
+variable of a declaration set, the index coming from the packet (all indices
+inside, two outside that the guard keeps out), reading and / or storing or
+incrementing the one element, each followed by reads and stores of the other
+variables; judged statement by statement on reference images of the maps, and
+all bytes of every map are compared after every run.  Right after the
+prologue raw instructions put the maps' base registers (r7, r6) on the
+stack; after every statement raw instructions compare them with what is
+there.
 """
 import contextlib
 import itertools
@@ -52,7 +74,23 @@ RULE = ("cases = all multisets of (format, place) declarations up to the "
         "PerCPUArrayMap first}, all bytes of both maps compared after every "
         "step; pairs over {B I x 3B} in two maps of the same class; sets of "
         "<= 2 with a second live instance of the program class that has "
-        "fewer / more subprograms; a case is non-trivial when the "
+        "fewer / more subprograms; in every array-map case, after each "
+        "write vector and after each program run, per variable two values "
+        "struct refuses (the first time all: range / type / arity, tuples "
+        "wrong in the last / a middle / the first element only, 'x' out of "
+        "64 bits), after which both sides must read the last value written "
+        "successfully; element access by the library's idiom "
+        "`get_address(None, False, False)` + `r[dst] += size * index`: "
+        "multi-element formats {2H 3B 5I 64I} x places alone and next to "
+        "every other declaration (and to two others over a smaller "
+        "alphabet, and to one in a map of the other kind, and to the "
+        "byte-order-prefixed formats), array and per-CPU map, modes "
+        "{read+store, increment+read; thorough also read, store}, run-time "
+        "indices 0..n-1 (64I: both ends and the middle; thorough all 64) and "
+        "n, 255, each element access followed by reads and stores of the "
+        "single-element variables, all bytes of the maps compared after "
+        "every run and the base registers compared with their value after "
+        "the prologue after every statement; a case is non-trivial when the "
         "library accepted the declarations and at least one variable was "
         "transferred in each direction; distinct = distinct declaration set "
         "(x map kind(s) and distribution x n_possible)")
@@ -421,7 +459,8 @@ def refuse_writes(case, t, phase, obs):
             except Exception as ex:
                 if isinstance(ex, simkernel.SimTrap):
                     raise
-                log.append((i, kind, type(ex).__name__))
+                # (which exception is the business of the buffer's type)
+                log.append((i, kind, "refused"))
                 continue
             log.append((i, kind, "accepted"))
             if i not in accepted:
@@ -1760,6 +1799,11 @@ def work_elem(item, seed, kern_every, res):
             % kern_every == 0:
         st2, obs2 = run_elem(layout, assign, kinds, mode, full, seed, "real",
                              n, cpus)
+        if st2.startswith("rejected"):
+            # the verifier's opinion of the program is C05's subject
+            res.count("real_kernel_refused_program")
+            res.outcomes.add("elem-real-" + st2)
+            return
         res.count("kernel_validated")
         res.count("kernel_validated_element_access")
         if (st2, obs2) != (st, obs):
@@ -2091,6 +2135,25 @@ def run(ctx):
         "two maps of the same class in one program (the library has one "
         "base register per map class and does not reject the program) are "
         "held to the same statement; turn off with SAME_KIND = False",
+        "a Python-side write that raises (struct.error, TypeError ...) "
+        "because the value cannot be a value of the variable's format has "
+        "written nothing: Python and the program still read the value "
+        "written last by a successful write from either side (this is the "
+        "statement's 'a value written from Python is read by the program "
+        "unchanged' - a value that was not written is not read); if the "
+        "library accepts such a value instead of raising, what the variable "
+        "holds then is left open (counted, written again, not alarmed); "
+        "turn off with REFUSED_WRITES = False",
+        "element access: the yielded address register of "
+        "`var.get_address(None, False, False)` may be modified in place "
+        "inside the with block, as the library's own EtherXDP.program does; "
+        "element i of a multi-element variable is the bytes [pos + i * "
+        "size, pos + (i + 1) * size) of its map in native byte order; an "
+        "index the guard `r3 < n` keeps out accesses nothing; `m[...] += 1` "
+        "wraps modulo the element size; the map base registers (r7 array "
+        "map, r6 per-CPU map) are the library's, a user program does not "
+        "write them, so they hold the same pointer after every statement; "
+        "turn off with ELEM_ACCESS = False",
         "two instances of one program class are independent programs: the "
         "second instance is only created and loaded, all observations are "
         "made on the first (simulated kernel only - with the defect "
@@ -2101,7 +2164,8 @@ def run(ctx):
         two_maps_declarations=3, two_maps_pairs_alphabet=len(PAIRS),
         two_maps_triples_formats=list(
             TRI_FORMATS_QUICK if ctx.quick else TRI_FORMATS),
-        same_class_maps=SAME_KIND, two_instances=TWIN_INSTANCES)
+        same_class_maps=SAME_KIND, two_instances=TWIN_INSTANCES,
+        refused_writes=REFUSED_WRITES, element_access=ELEM_ACCESS)
     return res
 
 
